@@ -13,9 +13,10 @@ import (
 // asks ParseValidNameKV for the custom message; otherwise the first '|' inside the pattern is
 // taken for the delimiter and part of the pattern is shown as the message.
 // For every rule function that locates a quote in its own rule text:
-//   every ParseValidNameKV call whose message result is used takes  text[:q] + text[e:]
-//   with q the index of the opening quote and e derived from the scan cursor that found the
-//   closing quote — never the unmodified rule text.
+//
+//	every ParseValidNameKV call whose message result is used takes  text[:q] + text[e:]
+//	with q the index of the opening quote and e derived from the scan cursor that found the
+//	closing quote — never the unmodified rule text.
 func runC15Quoted(c *Ctx) {
 	p := c.P
 	c.Rule("C15-QUOTED", "a rule function that scans a quoted argument in its rule text parses the custom message from the text with the quoted span removed (text[:openQuote] + text[afterClose:])", 1)
@@ -332,7 +333,6 @@ func runC15Join(c *Ctx) {
 	}
 }
 
-
 // sameSSAValue: the same SSA value, or two loads of one local variable cell that is assigned
 // exactly once (a local captured by a closure is lowered to such a cell).
 func sameSSAValue(a, b ssa.Value) bool {
@@ -359,7 +359,6 @@ func sameSSAValue(a, b ssa.Value) bool {
 	}
 	return stores == 1
 }
-
 
 // sameFieldOfLocal: two loads of the same field of one function-local struct (a small struct kept
 // in a local instead of two parallel variables) between which the field is not written: every store
